@@ -541,7 +541,7 @@ func (ambiguous Ambiguous) Reverse(length int) Location {
 
 // Normalize returns a location normalized for the given length sequence.
 func (ambiguous Ambiguous) Normalize(length int) Location {
-	return Ambiguous{ambiguous.Start % length, ambiguous.End % length}
+	return Ambiguous{ambiguous.Start % length, (ambiguous.End-1)%length + 1}
 }
 
 // Shift the location beyond the given position i by n.
